@@ -218,7 +218,12 @@ impl RawAutomaton {
             transitions: Vec::from_iter([(0..alphabet_size)
                 .map(|b| ((b as u8).into(), 0))
                 .collect::<Vec<_>>()]),
-            markers: FxHashSet::default(),
+            // All transitions are unmarked, i.e., carry the marker 0.
+            markers: if alphabet_size == 0 {
+                FxHashSet::default()
+            } else {
+                FxHashSet::from_iter([0])
+            },
         }
     }
 
